@@ -439,6 +439,29 @@ theorem toplevel_fn_unknown (reg : Registry N) (f : String) (steps : List Step) 
     readerExecutor reg ⟨some f, steps⟩ d = .error .error := by
   simp [readerExecutor, hr, hf, bind, Except.bind]
 
+/-- **the function registered NOW is the one applied**: after `RegisterTopLevelFunction(f, g)` — whatever was registered under
+    `f` before, and whatever has been evaluated (and cached) before — `f=>steps` is `g` applied to what the steps return -/
+theorem toplevel_fn_registered_now (reg : Registry N) (f : String) (g : Val N → R (Val N)) (steps : List Step) (d : Val N) :
+    readerExecutor (register reg f g) ⟨some f, steps⟩ d = evalSteps steps d >>= g := by
+  simp [readerExecutor, register]
+
+/-- registering a name again replaces the earlier function (the last registration wins) -/
+theorem registered_again_overrides (reg : Registry N) (f : String) (g₁ g₂ : Val N → R (Val N)) :
+    register (register reg f g₁) f g₂ = register reg f g₂ := by
+  funext x; simp only [register]; split <;> rfl
+
+/-- ... and leaves every other name as it was -/
+theorem register_other_untouched (reg : Registry N) (f f' : String) (g : Val N → R (Val N)) (h : f' ≠ f) :
+    register reg f g f' = reg f' := by
+  simp [register, h]
+
+/-- what `ExecReader` keeps per selector TEXT (the parse of every `::` part) is computed without the registry: a text that
+    was evaluated under one registry is evaluated under the next one from the same parse, with the next one's functions -/
+theorem parse_is_registry_free (reg₁ reg₂ : Registry N) (d : Val N) (s : String) (ps : List Parsed)
+    (hp : parseAllL s.toList = .ok ps) :
+    execReaderWith reg₁ d s = runAll reg₁ ps d ∧ execReaderWith reg₂ d s = runAll reg₂ ps d := by
+  simp [execReaderWith, hp, bind, Except.bind]
+
 /-- the text `name=>rest` parses to the function `name` and the steps of `rest` -/
 theorem toplevel_fn_parse (f rest : String) (hf : ∀ c ∈ f.toList, isWord c = true) :
     parseSelector (f ++ "=>" ++ rest) =
@@ -447,6 +470,24 @@ theorem toplevel_fn_parse (f rest : String) (hf : ∀ c ∈ f.toList, isWord c =
     have : "=>".toList = ['=', '>'] := by decide
     simp [String.toList_append, this]
   simp only [parseSelector, hl, parseSelectorL_fn hf, String.ofList_toList]
+
+/-- the same at the level of selector TEXT: `ExecReader(doc, "f=>rest")` (no `::` part) after `RegisterTopLevelFunction(f, g)`
+    is `g` applied to what the steps of `rest` return on the document -/
+theorem registered_now_text (reg : Registry N) (f rest : String) (g : Val N → R (Val N)) (d : Val N) (steps : List Step)
+    (hf : ∀ c ∈ f.toList, isWord c = true)
+    (hc : ∀ c ∈ (f ++ "=>" ++ rest).toList, c ≠ ':')
+    (hp : mapE parseTok (findAll matchFull 0 rest.toList) = .ok steps) :
+    execReaderWith (register reg f g) d (f ++ "=>" ++ rest) = evalSteps steps d >>= g := by
+  have hparse := toplevel_fn_parse f rest hf
+  simp only [parseSelector] at hparse
+  simp only [execReaderWith, parseAllL, splitCC_single hc, mapE, hparse, hp, Functor.map, Except.map, bind, Except.bind,
+    pure, Except.pure, runAll]
+  have := toplevel_fn_registered_now reg f g steps d
+  simp only [bind, Except.bind] at this
+  rw [this]
+  cases evalSteps steps d with
+  | error e => rfl
+  | ok v => simp only []; cases hg : g v <;> rfl
 
 example : parseSelector ("mix" ++ "=>" ++ "data[each].x") = .ok ⟨some "mix", [.key "data", .dims [.each], .key "x"]⟩ := by
   rw [toplevel_fn_parse "mix" _ (by decide)]; decide +kernel
@@ -692,6 +733,13 @@ example : execReader docNested "mix=>data[each].x[each].y"
     = .ok (.arr [.num 1, .num 2, .num 3, .num 4]) := by decide +kernel
 example : execReader docNested "nosuchfn=>data" = .error .error := by decide +kernel
 example : execReader docUsers "distinct=>users[each].name::[(begin:1)]" = .ok (.arr [.str "ann"]) := by
+  decide +kernel
+-- register, evaluate, register AGAIN, evaluate the same text: the second evaluation applies the second function
+example : execReaderWith (register builtins "vf_top" (fun v => .ok (.arr [v]))) docNested "vf_top=>data[each].user"
+    = .ok (.arr [.arr [.arr [.str "a", .str "b"], .arr [.str "c"]]]) := by decide +kernel
+example : execReaderWith (register (register builtins "vf_top" (fun v => .ok (.arr [v]))) "vf_top" (fun _ => .ok (.num 7)))
+    docNested "vf_top=>data[each].user" = .ok (.num 7) := by decide +kernel
+example : execReaderWith (register builtins "mix" (fun _ => .ok .null)) docNested "mix=>data[each].x[each].y" = .ok .null := by
   decide +kernel
 -- a missing key is NULL, and stays NULL
 example : execReader docUsers "users[0].address.zip" = .ok .null := by decide +kernel
